@@ -77,6 +77,7 @@ PLAN["C14"] = {
         {"name": "TestQueryTextRoundTrip", "quick": (800000, 8), "thorough": (8000000, 16)},
         {"name": "TestBuiltQueryRoundTrip", "quick": (400000, 4), "thorough": (6000000, 16)},
         {"name": "TestInjection", "quick": (400000, 4), "thorough": (6000000, 16)},
+        {"name": "TestEngineQueryLength", "quick": (24000, 4), "thorough": (600000, 16)},
         {"name": "FuzzQuery", "fuzz": True, "thorough": (FUZZ_SECONDS, 16)},
         {"name": "FuzzInjection", "fuzz": True, "thorough": (FUZZ_SECONDS, 16)},
     ],
@@ -86,7 +87,7 @@ PLAN["C14"] = {
             "format -> parse must succeed, print identically and give a node-by-node equal tree; (b) programmatic NewCondition/"
             "NewBoolCombination trees valid by construction with hostile text values: Parse(Stringify(t)) == t.Simplify(); (c) values "
             "substituted into multi-condition templates through Evaluator.Template with flows.ContactQueryEscaping must parse to exactly "
-            "the intended tree. Non-trivial = at least 2 conditions or a value containing a quote, backslash, operator, parenthesis or "
+            "the intended tree; (d) engine level: the contact_query a start_session/send_broadcast action hands to the host (template evaluated inside the engine, with value lengths on both sides of every position where the template limit could cut) parses to the intended conditions or not at all. Non-trivial = at least 2 conditions or a value containing a quote, backslash, operator, parenthesis or "
             "keyword; distinct by query text / tree / (template, values).",
     "assumptions": COMMON_ASSUMPTIONS + ["tree equality is judged through the exported accessors (PropertyType, PropertyKey, Operator, Value, Children)"],
 }
